@@ -42,6 +42,13 @@ pub enum Script {
     /// at most k bytes per call; at call `at` the sink returns an error of kind `kind` ONCE and then recovers
     /// (kind: 0 WouldBlock, 1 TimedOut, 2 Interrupted, 3 Other, 4 BrokenPipe, 5 WriteZero, 6 OutOfMemory)
     MaxKErrOnce { k: usize, at: usize, kind: u8 },
+    /// at most k bytes per call; from call index `at` on, `n` consecutive calls return ErrorKind::Interrupted
+    /// (a signal storm); the sink then continues normally
+    InterruptBurst { k: usize, at: usize, n: usize },
+    /// at most k bytes per call; every successful call is preceded by `n` interrupted ones
+    InterruptEvery { k: usize, n: usize },
+    /// one interruption at `at`, directly followed by a non-retryable failure of kind `kind`
+    InterruptThenFail { k: usize, at: usize, kind: u8 },
 }
 
 pub fn err_kind(kind: u8) -> io::ErrorKind {
@@ -164,6 +171,32 @@ impl Write for Sink {
                         self.transient = true;
                     }
                     return Err(io::Error::new(err_kind(*kind), "scripted one-shot error"));
+                }
+                take(*k)
+            }
+            Script::InterruptBurst { k, at, n } => {
+                if call >= *at && call < *at + *n {
+                    self.interrupted = true;
+                    return Err(io::Error::new(io::ErrorKind::Interrupted, "scripted interruption (burst)"));
+                }
+                take(*k)
+            }
+            Script::InterruptEvery { k, n } => {
+                if call % (*n + 1) != *n {
+                    self.interrupted = true;
+                    return Err(io::Error::new(io::ErrorKind::Interrupted, "scripted interruption (periodic)"));
+                }
+                take(*k)
+            }
+            Script::InterruptThenFail { k, at, kind } => {
+                if call == *at {
+                    self.interrupted = true;
+                    return Err(io::Error::new(io::ErrorKind::Interrupted, "scripted interruption"));
+                }
+                if call == *at + 1 {
+                    self.failed = true;
+                    let kind = if err_kind(*kind) == io::ErrorKind::Interrupted { io::ErrorKind::Other } else { err_kind(*kind) };
+                    return Err(io::Error::new(kind, "scripted failure right after an interruption"));
                 }
                 take(*k)
             }
@@ -317,6 +350,30 @@ pub fn scripts_for(log: &[(usize, usize)], tier_full: bool) -> Vec<Script> {
             }
         }
     }
+    // interruptions are unbounded in number: bursts of 2..64 at every call index of the unperturbed sequence (and in
+    // the middle of byte-wise delivery), and n interruptions in front of every call
+    for burst in [2usize, 3, 7, 8, 9, 16, 17, 64] {
+        for at in 0..=n {
+            v.push(Script::InterruptBurst { k: usize::MAX, at, n: burst });
+        }
+        for k in [1usize, 3] {
+            for at in [0usize, 1, 5, 23, 24, 25, 26, 27, 28, 29, 31, 33, 40, 47, 48, 49, 64, 100, 200] {
+                v.push(Script::InterruptBurst { k, at, n: burst });
+            }
+        }
+    }
+    for every in [1usize, 2, 3, 8, 9] {
+        for k in [1usize, 3, 16, usize::MAX] {
+            v.push(Script::InterruptEvery { k, n: every });
+        }
+    }
+    for kind in [0u8, 3, 4, 5] {
+        for k in [1usize, usize::MAX] {
+            for at in (0..=n).chain([24usize, 25, 27, 40]) {
+                v.push(Script::InterruptThenFail { k, at, kind });
+            }
+        }
+    }
     v
 }
 
@@ -378,6 +435,9 @@ pub fn check_sinks(bytes: &[u8], case_hash: u64, all_lengths: bool, max_pairs: u
         scripts.retain(|s| match s {
             Script::ShortThenFail { short_call, fail_call, .. } => short_call % stride == 0 && (fail_call % stride == 0 || *fail_call == short_call + 1 || *fail_call >= n_calls - 1),
             Script::MaxK(k) => *k <= 3 || *k == 16,
+            Script::InterruptBurst { k, at, n } => (*k == usize::MAX && at % stride == 0 && matches!(*n, 2 | 8 | 9 | 64)) || (*k == 3 && *n == 9 && *at < 30),
+            Script::InterruptThenFail { k, at, .. } => *k == usize::MAX && at % stride == 0,
+            Script::InterruptEvery { k, n } => *k >= 16 && *n >= 8,
             _ => true,
         });
     }
@@ -396,11 +456,11 @@ pub fn check_sinks(bytes: &[u8], case_hash: u64, all_lengths: bool, max_pairs: u
             Script::ShortOnceAt { call, .. } | Script::FailAt { call } | Script::InterruptAt { call } => Some(*call),
             Script::ShortThenFail { fail_call, .. } => Some(*fail_call),
             Script::ShortThenInterrupt { int_call, .. } => Some(*int_call),
-            Script::MaxKThenFail { .. } | Script::MaxKInterrupt { .. } | Script::VecMaxK(_) | Script::Capacity(_) | Script::MaxKErrOnce { .. } => Some(0),
+            Script::MaxKThenFail { .. } | Script::MaxKInterrupt { .. } | Script::VecMaxK(_) | Script::Capacity(_) | Script::MaxKErrOnce { .. } | Script::InterruptBurst { .. } | Script::InterruptEvery { .. } | Script::InterruptThenFail { .. } => Some(0),
             Script::All => None,
         };
         let in_padding = match (fault_call, first_pad_call) {
-            (Some(f), Some(p)) => matches!(sc, Script::MaxK(_) | Script::MaxKThenFail { .. } | Script::MaxKInterrupt { .. } | Script::VecMaxK(_) | Script::Capacity(_) | Script::MaxKErrOnce { .. }) || f >= p,
+            (Some(f), Some(p)) => matches!(sc, Script::MaxK(_) | Script::MaxKThenFail { .. } | Script::MaxKInterrupt { .. } | Script::VecMaxK(_) | Script::Capacity(_) | Script::MaxKErrOnce { .. } | Script::InterruptBurst { .. } | Script::InterruptEvery { .. } | Script::InterruptThenFail { .. }) || f >= p,
             _ => false,
         };
         if in_padding {
